@@ -8,6 +8,7 @@ import (
 	"math"
 	"math/bits"
 	"strings"
+	"sync"
 )
 
 type Sort uint8
@@ -79,6 +80,73 @@ type Term struct {
 	h1   uint64
 	h2   uint64
 	size int
+	vs   []int32 // sorted ids of the free variables
+	tbl  int     // > 0: the term is a constant or an ite-tree over constants with tbl leaves ("table")
+}
+
+var (
+	varIDmu sync.Mutex
+	varIDs  = map[string]int32{}
+)
+
+func varID(name string) int32 {
+	varIDmu.Lock()
+	defer varIDmu.Unlock()
+	id, ok := varIDs[name]
+	if !ok {
+		id = int32(len(varIDs))
+		varIDs[name] = id
+	}
+	return id
+}
+
+func mergeVars(a, b []int32) []int32 {
+	if len(a) == 0 {
+		return b
+	}
+	if len(b) == 0 {
+		return a
+	}
+	out := make([]int32, 0, len(a)+len(b))
+	i, j := 0, 0
+	for i < len(a) && j < len(b) {
+		switch {
+		case a[i] < b[j]:
+			out = append(out, a[i])
+			i++
+		case a[i] > b[j]:
+			out = append(out, b[j])
+			j++
+		default:
+			out = append(out, a[i])
+			i++
+			j++
+		}
+	}
+	out = append(out, a[i:]...)
+	out = append(out, b[j:]...)
+	if len(out) == len(a) {
+		return a
+	}
+	if len(out) == len(b) {
+		return b
+	}
+	return out
+}
+
+func intersects(a, b []int32) bool {
+	i, j := 0, 0
+	for i < len(a) && j < len(b) {
+		switch {
+		case a[i] < b[j]:
+			i++
+		case a[i] > b[j]:
+			j++
+		default:
+			return true
+		}
+	}
+	return false
 }
 
 func mix(h, x uint64) uint64 {
@@ -105,14 +173,102 @@ func mk(op string, sort Sort, args ...*Term) *Term {
 		t.h1 = mix(t.h1, a.h1)
 		t.h2 = mix(t.h2, a.h2^0xabcdef)
 		t.size += a.size
+		t.vs = mergeVars(t.vs, a.vs)
+	}
+	if op == "ite" && args[1].tbl > 0 && args[2].tbl > 0 {
+		t.tbl = args[1].tbl + args[2].tbl
 	}
 	return t
+}
+
+const tableCap = 4096
+
+// Table lifting: an operation whose operands are all constants or ite-trees over
+// constants is pushed to the leaves, where it is evaluated exactly by the host. Values
+// drawn from small finite domains (vh.FloatFrom, the ParseFloat digit tables) thus never
+// reach the solver's floating-point theory; only the selector conditions do.
+func liftable(args ...*Term) bool {
+	n := 1
+	ite := false
+	for _, a := range args {
+		if a.tbl == 0 {
+			return false
+		}
+		if a.Op == "ite" {
+			ite = true
+		}
+		n *= a.tbl
+		if n > tableCap {
+			return false
+		}
+	}
+	return ite
+}
+
+// assumption context for lifting: conditions known true / false on the way down
+type liftCtx struct {
+	c    *Term
+	pos  bool
+	next *liftCtx
+}
+
+// known reports whether cond is decided by the context.
+func (x *liftCtx) known(cond *Term) (bool, bool) {
+	for p := x; p != nil; p = p.next {
+		if Same(p.c, cond) {
+			return p.pos, true
+		}
+		// selector tests: (= v k1) true implies (= v k2) false for k1 != k2
+		if p.pos && p.c.Op == "=" && cond.Op == "=" && len(p.c.Args) == 2 && len(cond.Args) == 2 {
+			pv, pk := p.c.Args[0], p.c.Args[1]
+			cv, ck := cond.Args[0], cond.Args[1]
+			if pk.IsConst() && ck.IsConst() && Same(pv, cv) && pk.Val != ck.Val {
+				return false, true
+			}
+		}
+	}
+	return false, false
+}
+
+func lift1(f func(*Term) *Term, a *Term) *Term {
+	if a.Op == "ite" {
+		return Ite(a.Args[0], lift1(f, a.Args[1]), lift1(f, a.Args[2]))
+	}
+	return f(a)
+}
+
+func lift2(f func(a, b *Term) *Term, a, b *Term) *Term { return lift2c(f, a, b, nil) }
+
+func lift2c(f func(a, b *Term) *Term, a, b *Term, ctx *liftCtx) *Term {
+	for _, t := range []**Term{&a, &b} {
+		for (*t).Op == "ite" {
+			v, ok := ctx.known((*t).Args[0])
+			if !ok {
+				break
+			}
+			if v {
+				*t = (*t).Args[1]
+			} else {
+				*t = (*t).Args[2]
+			}
+		}
+	}
+	if a.Op == "ite" {
+		c := a.Args[0]
+		return Ite(c, lift2c(f, a.Args[1], b, &liftCtx{c, true, ctx}), lift2c(f, a.Args[2], b, &liftCtx{c, false, ctx}))
+	}
+	if b.Op == "ite" {
+		c := b.Args[0]
+		return Ite(c, lift2c(f, a, b.Args[1], &liftCtx{c, true, ctx}), lift2c(f, a, b.Args[2], &liftCtx{c, false, ctx}))
+	}
+	return f(a, b)
 }
 
 func Var(name string, sort Sort) *Term {
 	t := &Term{Op: "var", Name: name, Sort: sort, size: 1}
 	t.h1 = mix(strHash(name, 1), uint64(sort))
 	t.h2 = mix(strHash(name, 2), uint64(sort)+3)
+	t.vs = []int32{varID(name)}
 	return t
 }
 
@@ -120,7 +276,7 @@ func konst(sort Sort, v uint64) *Term {
 	if b := sort.Bits(); b > 0 && b < 64 {
 		v &= (1 << uint(b)) - 1
 	}
-	t := &Term{Op: "const", Sort: sort, Val: v, size: 1}
+	t := &Term{Op: "const", Sort: sort, Val: v, size: 1, tbl: 1}
 	t.h1 = mix(mix(0x1234, uint64(sort)), v)
 	t.h2 = mix(mix(0x9876, uint64(sort)), v^0x55)
 	return t
@@ -143,7 +299,7 @@ func BoolConst(b bool) *Term {
 	return TFalse
 }
 func BVConst(v uint64, bits int) *Term { return konst(bvSort(bits), v) }
-func FPConst(f float64) *Term         { return konst(SFP, math.Float64bits(f)) }
+func FPConst(f float64) *Term          { return konst(SFP, math.Float64bits(f)) }
 
 func (t *Term) IsConst() bool { return t.Op == "const" }
 func (t *Term) IsTrue() bool  { return t.Op == "const" && t.Sort == SBool && t.Val == 1 }
@@ -232,6 +388,9 @@ func Eq(a, b *Term) *Term {
 	if Same(a, b) {
 		return TTrue
 	}
+	if a.Sort != SBool && liftable(a, b) {
+		return lift2(Eq, a, b)
+	}
 	if a.IsConst() && b.IsConst() {
 		if a.Sort == SFP {
 			fa, fb := a.Float(), b.Float()
@@ -266,6 +425,9 @@ func sext(v uint64, bits int) int64 {
 func BVBin(op string, a, b *Term) *Term {
 	if a.Sort != b.Sort {
 		panic(fmt.Sprintf("BVBin %s sort mismatch %v %v", op, a.Sort, b.Sort))
+	}
+	if liftable(a, b) {
+		return lift2(func(x, y *Term) *Term { return BVBin(op, x, y) }, a, b)
 	}
 	n := a.Sort.Bits()
 	if a.IsConst() && b.IsConst() {
@@ -303,21 +465,27 @@ func BVBin(op string, a, b *Term) *Term {
 				y = uint64(n - 1)
 			}
 			r = uint64(sx >> y)
+		// division by zero follows SMT-LIB (the executor never relies on it: Go's
+		// divide-by-zero panic is an explicit obligation before the operation)
 		case "bvudiv":
 			if y == 0 {
-				ok = false
+				r = ^uint64(0)
 			} else {
 				r = x / y
 			}
 		case "bvurem":
 			if y == 0 {
-				ok = false
+				r = x
 			} else {
 				r = x % y
 			}
 		case "bvsdiv":
 			if sy == 0 {
-				ok = false
+				if sx < 0 {
+					r = 1
+				} else {
+					r = ^uint64(0)
+				}
 			} else if sy == -1 {
 				r = uint64(-sx)
 			} else {
@@ -325,7 +493,7 @@ func BVBin(op string, a, b *Term) *Term {
 			}
 		case "bvsrem":
 			if sy == 0 {
-				ok = false
+				r = x
 			} else if sy == -1 {
 				r = 0
 			} else {
@@ -358,6 +526,9 @@ func BVBin(op string, a, b *Term) *Term {
 func BVCmp(op string, a, b *Term) *Term {
 	if a.Sort != b.Sort {
 		panic(fmt.Sprintf("BVCmp %s sort mismatch %v %v", op, a.Sort, b.Sort))
+	}
+	if liftable(a, b) {
+		return lift2(func(x, y *Term) *Term { return BVCmp(op, x, y) }, a, b)
 	}
 	n := a.Sort.Bits()
 	if a.IsConst() && b.IsConst() {
@@ -394,6 +565,9 @@ func BVCmp(op string, a, b *Term) *Term {
 }
 
 func BVNeg(a *Term) *Term {
+	if liftable(a) {
+		return lift1(BVNeg, a)
+	}
 	if a.IsConst() {
 		return konst(a.Sort, -a.Val)
 	}
@@ -413,6 +587,9 @@ func Resize(a *Term, bits int, signed bool) *Term {
 	if n == bits {
 		return a
 	}
+	if liftable(a) {
+		return lift1(func(x *Term) *Term { return Resize(x, bits, signed) }, a)
+	}
 	if a.IsConst() {
 		if bits > n && signed {
 			return konst(bvSort(bits), uint64(sext(a.Val, n)))
@@ -431,6 +608,9 @@ func Resize(a *Term, bits int, signed bool) *Term {
 // ---- floating point constructors ----
 
 func FPBin(op string, a, b *Term) *Term {
+	if liftable(a, b) {
+		return lift2(func(x, y *Term) *Term { return FPBin(op, x, y) }, a, b)
+	}
 	if a.IsConst() && b.IsConst() {
 		x, y := a.Float(), b.Float()
 		switch op {
@@ -448,6 +628,9 @@ func FPBin(op string, a, b *Term) *Term {
 }
 
 func FPCmp(op string, a, b *Term) *Term {
+	if liftable(a, b) {
+		return lift2(func(x, y *Term) *Term { return FPCmp(op, x, y) }, a, b)
+	}
 	if a.IsConst() && b.IsConst() {
 		x, y := a.Float(), b.Float()
 		switch op {
@@ -467,6 +650,9 @@ func FPCmp(op string, a, b *Term) *Term {
 }
 
 func FPNeg(a *Term) *Term {
+	if liftable(a) {
+		return lift1(FPNeg, a)
+	}
 	if a.IsConst() {
 		return FPConst(-a.Float())
 	}
@@ -474,6 +660,9 @@ func FPNeg(a *Term) *Term {
 }
 
 func FPPred(op string, a *Term) *Term {
+	if liftable(a) {
+		return lift1(func(x *Term) *Term { return FPPred(op, x) }, a)
+	}
 	if a.IsConst() {
 		x := a.Float()
 		switch op {
@@ -491,6 +680,9 @@ func FPPred(op string, a *Term) *Term {
 }
 
 func FPRound(rm *Term, a *Term) *Term {
+	if liftable(a) {
+		return lift1(func(x *Term) *Term { return FPRound(rm, x) }, a)
+	}
 	if a.IsConst() {
 		x := a.Float()
 		switch rm {
@@ -509,6 +701,9 @@ func FPRound(rm *Term, a *Term) *Term {
 
 // FPFromBits reinterprets a 64-bit vector as a double.
 func FPFromBits(a *Term) *Term {
+	if liftable(a) {
+		return lift1(FPFromBits, a)
+	}
 	if a.IsConst() {
 		return konst(SFP, a.Val)
 	}
@@ -517,6 +712,9 @@ func FPFromBits(a *Term) *Term {
 
 // FPFromInt converts a (signed or unsigned) bit-vector integer to the nearest double.
 func FPFromInt(a *Term, signed bool) *Term {
+	if liftable(a) {
+		return lift1(func(x *Term) *Term { return FPFromInt(x, signed) }, a)
+	}
 	if a.IsConst() {
 		if signed {
 			return FPConst(float64(sext(a.Val, a.Sort.Bits())))
@@ -532,6 +730,9 @@ func FPFromInt(a *Term, signed bool) *Term {
 // FPToInt64 models Go's float64 -> int64 conversion on amd64 (CVTTSD2SQ):
 // truncation when representable, 0x8000000000000000 otherwise (NaN, +-Inf, out of range).
 func FPToInt64(a *Term) *Term {
+	if liftable(a) {
+		return lift1(FPToInt64, a)
+	}
 	if a.IsConst() {
 		x := a.Float()
 		if x != x || x >= 9223372036854775808.0 || x < -9223372036854775808.0 {
@@ -572,11 +773,14 @@ func (p *Printer) Print(t *Term) string {
 func (p *Printer) print(sb *strings.Builder, t *Term) {
 	switch t.Op {
 	case "var":
-		if !p.decls[t.Name] {
-			p.decls[t.Name] = true
-			p.Pending = append(p.Pending, fmt.Sprintf("(declare-const %s %s)", t.Name, t.Sort))
+		// the same harness symbol may be declared with different sorts on different
+		// paths; solver-side names carry the sort
+		n := solverName(t)
+		if !p.decls[n] {
+			p.decls[n] = true
+			p.Pending = append(p.Pending, fmt.Sprintf("(declare-const %s %s)", n, t.Sort))
 		}
-		sb.WriteString(t.Name)
+		sb.WriteString(n)
 		return
 	case "const":
 		switch t.Sort {
@@ -624,6 +828,14 @@ func (p *Printer) printApp(sb *strings.Builder, t *Term) {
 		p.print(sb, a)
 	}
 	sb.WriteByte(')')
+}
+
+func solverName(t *Term) string {
+	tag := "b"
+	if n := t.Sort.Bits(); n > 0 {
+		tag = fmt.Sprint(n)
+	}
+	return t.Name + "!" + tag
 }
 
 // Plain renders a term without abbreviations (for evidence samples / debugging).
